@@ -1668,6 +1668,10 @@ func c10Replay(r *mon.Run, raw stdjson.RawMessage) {
 		c10SharedOne(r, sh)
 		return
 	}
+	if sh.Kind == "shared-types-rebind" {
+		c10SharedRebind(r, sh.Project, sh.Rebind)
+		return
+	}
 	var fs struct {
 		First  *c10Input `json:"first_sight"`
 		Nondet *c10Input `json:"nondet"`
@@ -1760,7 +1764,7 @@ func init() {
 			"A result that differs from its baseline is triaged before it is reported: if only the heap-address name of an unnamed type (#0x…) differs it is reported under one fixed key; if recomputing the input up to 150 times on fresh objects (and in 2 more fresh processes) gives more than one answer the input is nondeterministic by itself (clause nondeterministic, keyed by what differs, and the input is no longer compared); otherwise clause history-dependent (panic if the history result is a panic the baseline does not have). " +
 			"The pools are emptied (two collections) before every 8th history and nothing is collected in between, GOMAXPROCS=1, so that sync.Pool reuse is certain and a history also meets what up to 7 earlier histories left in the pools; the hook counters report the reuse seen, and a shard that saw none claims no case. " +
 			"Inputs: fixed accepted schemas of nesting depth 0..10, scanner-rejected texts, texts failing half-way inside the loader (rule errors in // and /* */ annotations, duplicate keys, bad enum, unknown rule, annotation on a two-element line), enum/regex/document texts, every literal of the repository's tests (as schema; as enum, regex, document where it looks like one), generated nested schemas with one defect, generated 1-3 type projects, generated call scripts. " +
-			"(e) shared type objects: the type and rule objects of a project are registered in several roots one after the other (1-2 roots that lack some type and fail, then 1-3 complete roots; optionally the type objects' own Check() first and their Example/GetAST/Len between roots): every root must answer (Check, Example, AST, UsedUserTypes, OpenAPI) exactly like the same root over fresh objects; 10 hand-written allOf / reference shapes with every single withheld type, and 3k / 60k generated projects. " +
+			"(e) shared type objects: the type and rule objects of a project are registered in several roots one after the other (1-2 roots that lack some type and fail, then 1-3 complete roots; optionally the type objects' own Check() first and their Example/GetAST/Len between roots): every root must answer (Check, Example, AST, UsedUserTypes, OpenAPI) exactly like the same root over fresh objects; 13 hand-written allOf / reference shapes with every single withheld type, and 3k / 60k generated projects; the ASTs the type objects returned before the roots were built must still read the same at the end; in allOf-free projects further roots bind one name to another schema in turn (every other type object shared) and must answer like fresh objects with their binding. " +
 			"Workload: all sequences of <= 3 (quick) / <= 4 (thorough) calls over a fixed alphabet of 24 calls on 8 inputs; 20k (quick) / 300k (thorough) random histories of 5..60 operations over 1..6 slots. distinct_nontrivial = distinct histories during which a pooled buffer or a pooled loader was reused.",
 		MinNontrivialQuick: 15000, MinNontrivialThorough: 400000,
 		Assumptions: []string{
